@@ -1,0 +1,11 @@
+//go:build !verif
+
+package runtime
+
+// Verification hooks (see /verif/DESIGN.md §2.3). With the `verif` build tag
+// off these are empty and inlined away.
+
+func verifStep(*Core)     {}
+func verifCoreExit(*Core) {}
+func verifCatch(*Core)    {}
+func verifYield(string)   {}
